@@ -307,6 +307,11 @@ impl<T: Serialize + DeserializeOwned + Clone> SpillBuf<T> {
     }
 }
 
+/// The engine's wire encoding of `v` (to test that encoded lengths do not depend on values).
+pub fn wire_encode<T: serde::Serialize>(v: &T) -> Result<Vec<u8>, String> {
+    crate::utils::serde::serialize(v).map_err(|e| format!("{e:?}"))
+}
+
 /// First block the internal AES generator produces for `seed` (used to predict a challenge).
 pub fn aes_rng_first_block(seed: [u8; 16]) -> [u8; 16] {
     use rand::{Rng, SeedableRng};
